@@ -5,9 +5,10 @@
    Full-strength statement (all logs whose paths are non-empty and NUL-free, i.e. what a git
    tree can hold):
        forall l, deserialize (serialize l) = Ok (normalize l)
-   It is FALSE of the faithful model (C17_full_statement_refuted, witness: a file named
-   "---"); C17_roundtrip is the statement under the exact boolean side condition wf_log, and
-   the excluded logs are the known classes C17-K1,K3,K4,K5,K7,K8 of known_findings.json. *)
+   It is FALSE of the faithful model (C17_full_statement_refuted, witness: a path containing a
+   newline); C17_roundtrip is the statement under the exact boolean side condition wf_log,
+   C17_roundtrip_simple the same under its plain-terms form, and the excluded logs are the known
+   classes C17-K4, K8 of known_findings.json (K1, K3, K5, K7 were repaired in /repo). *)
 From Coq Require Import List NArith Bool.
 From Verif Require Import Base.Str Gen.GenSerial Model.Serial Proofs.SerialProofs Base.StrFacts.
 Import ListNotations.
@@ -31,7 +32,7 @@ Theorem C17_roundtrip_serde :
 Proof. exact roundtrip_serde. Qed.
 Print Assumptions C17_roundtrip_serde.
 
-Theorem C17_grammar : forall l, wf_log l = true -> grammar (serialize l).
+Theorem C17_grammar : forall l, wf_log l = true -> has_ranges l = true -> grammar (serialize l).
 Proof. exact serialize_grammar. Qed.
 Print Assumptions C17_grammar.
 
@@ -51,11 +52,25 @@ Proof. exact full_statement_refuted. Qed.
 Print Assumptions C17_full_statement_refuted.
 
 Theorem C17_known_classes_fail :
-  rt_fails wit_divider_path = true /\ rt_fails wit_quoted_like = true /\
-  rt_fails wit_trailing_nbsp = true /\ rt_fails wit_newline = true /\
-  rt_fails wit_empty_ranges = true /\ rt_fails wit_hash_space = true.
+  rt_fails wit_newline = true /\ rt_fails wit_hash_space = true.
 Proof. exact known_classes_fail. Qed.
 Print Assumptions C17_known_classes_fail.
+
+(* the side condition in plain terms (repaired writer and reader): every log whose paths are non-empty
+   and newline-free, whose hashes contain no blank, and whose ranges fit u32 survives the round trip *)
+Theorem C17_roundtrip_simple :
+  forall l, wf_simple l = true -> deserialize (serialize l) = Ok (normalize l).
+Proof. exact roundtrip_simple. Qed.
+Print Assumptions C17_roundtrip_simple.
+
+(* former known classes K1, K3, K5, K7 (repaired in /repo): their witnesses now round-trip *)
+Theorem C17_repaired_classes_roundtrip :
+  rt_fails wit_divider_path = false /\ rt_fails wit_quoted_like = false /\
+  rt_fails wit_trailing_nbsp = false /\ rt_fails wit_empty_ranges = false /\
+  wf_log wit_divider_path = true /\ wf_log wit_quoted_like = true /\
+  wf_log wit_trailing_nbsp = true /\ wf_log wit_empty_ranges = true.
+Proof. exact repaired_classes_roundtrip. Qed.
+Print Assumptions C17_repaired_classes_roundtrip.
 
 (* non-vacuity: a non-trivial log (quoted path, unsorted ranges, an empty file, a file named
    with a lone double quote, a path of dashes, duplicate lines) meets the hypothesis *)
